@@ -11,13 +11,15 @@ REPO=${VERIF_REPO:-/repo}
 export GOFLAGS=-mod=mod GOPROXY=off GOSUMDB=off GOTOOLCHAIN=local GONOSUMDB='*' GONOSUMCHECK=1 GOFLAGS=-mod=mod
 export GOCACHE=${GOCACHE:-$VERIF/.cache/go-build}
 export CGO_ENABLED=1
-mkdir -p "$VERIF/.tmp" "$VERIF/.bin" "$VERIF/evidence" "$VERIF/replays"
+# VERIF_OUT (testing only): where binaries, scratch, evidence and replays go
+OUT=${VERIF_OUT:-$VERIF}
+mkdir -p "$OUT/.tmp" "$OUT/.bin" "$OUT/evidence" "$OUT/replays"
 
 id=${1:-}
 mode=${2:-quick}
 [ -n "${VERIF_TIER:-}" ] && [ "$mode" != "--replay" ] && [ $# -lt 2 ] && mode=$VERIF_TIER
-bindir="$VERIF/.bin/${id:-setup}"
-[ "$id" = "--build-only" ] && bindir="$VERIF/.bin/setup"
+bindir="$OUT/.bin/${id:-setup}"
+[ "$id" = "--build-only" ] && bindir="$OUT/.bin/setup"
 mkdir -p "$bindir"
 
 build() {
@@ -50,12 +52,12 @@ if [ "$mode" = "--replay" ]; then
   w="$bindir/simworker"; extra=()
   if [ "$race" = 1 ]; then
     w="$bindir/simworker-race"
-    lp="$VERIF/.tmp/replay-race-$$"
+    lp="$OUT/.tmp/replay-race-$$"
     export GORACE="halt_on_error=0 log_path=$lp"
     extra=(-racelog "$lp")
   fi
-  out=$("$w" -replay "$file" -dir "$VERIF/.tmp" "${extra[@]}"); rc=$?
-  rm -f "$VERIF"/.tmp/replay-race-$$.*
+  out=$("$w" -replay "$file" -dir "$OUT/.tmp" "${extra[@]}"); rc=$?
+  rm -f "$OUT"/.tmp/replay-race-$$.*
   [ $rc -ne 0 ] && { echo "HARNESS-TROUBLE: replay worker exit $rc"; exit 2; }
   class=$(printf '%s' "$out" | python3 -c "import json,sys; d=json.load(sys.stdin); print(d['class']); sys.stderr.write(d['detail'][:4000]+'\n')")
   want=$(python3 -c "import json,sys; print(json.load(open(sys.argv[1]))['violation_class'])" "$file")
@@ -70,6 +72,6 @@ if [ "$mode" = "--replay" ]; then
 fi
 
 seed=${VERIF_SEED:-20260926}
-"$bindir/simdriver" -prop "$id" -tier "$mode" -seed "$seed" -verif "$VERIF" -bin "$bindir" ${VERIF_SCALE:+-scale "$VERIF_SCALE"}
+"$bindir/simdriver" -prop "$id" -tier "$mode" -seed "$seed" -verif "$VERIF" -out "$OUT" -bin "$bindir" ${VERIF_SCALE:+-scale "$VERIF_SCALE"}
 rc=$?
 exit $rc
